@@ -23,7 +23,7 @@ func init() {
 	Register("C14", &CheckInfo{
 		Fn: checkC14, Level: "model_checking",
 		Rule: "bridge monitor on every accepted ClaimDeposits / WithdrawTokens: a claim is accepted only for an unflagged aggregate of that deposit's query, at least 12h old, whose power reached floor(2/3) of the validator set in force before its timestamp, at most once per id over the whole history (independent claimed-set), minting exactly amount/1e12 (independent ABI decode) with tip/1e12 to the claimer and the rest to the decoded recipient; a withdrawal burns exactly the amount from the sender, takes id previous+1 and publishes one aggregate under keccak(abi('TRBBridge',abi(false,id))) whose value decodes to (recipient,sender,amount); stored withdrawal aggregates never change; evaluated on (a) the product value encodings {well-formed, tip 0, tip=amount, tip>amount, amount not multiple of 1e12, amount<1e12, amount 2^63*1e12, 2^64*1e12, (2^64+5)*1e12, truncated ABI, bad bech32, 0x-prefixed} x power {threshold-1, threshold, threshold+1} x age {12h-1ms, 12h, 12h+1ms} x {unflagged, flagged} x {valset unchanged, validator power raised / lowered by > 5% after the report} with claims {single, repeated, batched [id,id], wrong index, unknown id}, (b) an exhaustive DFS depth 4 (quick) / 5 (thorough) from a real end-to-end deposit (2000-block window, >2/3 reporters) over claims, disputes flagging the aggregate, withdrawals with recipients of 0/19/20/40 bytes and amounts 1/1e6/balance+1, delegations and block gaps, (c) all <=k-deviation histories around the bridge skeleton",
-		QuickBudget: 7 * time.Minute, ThoroughBudget: 15 * time.Minute,
+		QuickBudget: 10 * time.Minute, ThoroughBudget: 15 * time.Minute,
 	})
 }
 
